@@ -216,33 +216,38 @@ def uintToStr (div0 : Nat) (val : Nat) (out : Bytes) : M (Nat × Bytes) := do
 def uint16ToStr := uintToStr Mhd.Gen.Str.dec16Divisor
 def uint64ToStr := uintToStr Mhd.Gen.Str.dec64Divisor
 
-/-- `MHD_uint8_to_str_pad (val, min_digits, buf, buf_size)` -/
-def uint8ToStrPad (val minDigits : Nat) (out : Bytes) : M (Nat × Bytes) := do
-  if out.length = 0 then return (0, out)
-  let d1 := val / 100
-  let (pos, out, val, minDigits) ←
-    (if d1 = 0 then
-      if 3 ≤ minDigits then do
-        let o ← wr out 0 0x30
-        pure (1, o, val, minDigits)
-      else pure (0, out, val, minDigits)
-    else do
-      let o ← wr out 0 (UInt8.ofNat (0x30 + d1))
-      pure (1, o, val % 100, 2) : M (Nat × Bytes × Nat × Nat))
-  if out.length ≤ pos then return (0, out)
-  let d2 := val / 10
-  let (pos, out, val) ←
-    (if d2 = 0 then
-      if 2 ≤ minDigits then do
-        let o ← wr out pos 0x30
-        pure (pos + 1, o, val)
-      else pure (pos, out, val)
-    else do
-      let o ← wr out pos (UInt8.ofNat (0x30 + d2))
-      pure (pos + 1, o, val % 10) : M (Nat × Bytes × Nat))
+/-- last stage of `MHD_uint8_to_str_pad`: `if (buf_size <= pos) return 0; buf[pos++] = '0' + val; return pos;` -/
+def uint8PadOnes (val pos : Nat) (out : Bytes) : M (Nat × Bytes) := do
   if out.length ≤ pos then return (0, out)
   let o ← wr out pos (UInt8.ofNat (0x30 + val))
   return (pos + 1, o)
+
+/-- middle stage: the size check and the tens digit -/
+def uint8PadTens (val minDigits pos : Nat) (out : Bytes) : M (Nat × Bytes) := do
+  if out.length ≤ pos then return (0, out)
+  let d2 := val / 10
+  if d2 = 0 then
+    if 2 ≤ minDigits then
+      let o ← wr out pos 0x30
+      uint8PadOnes val (pos + 1) o
+    else uint8PadOnes val pos out
+  else
+    let o ← wr out pos (UInt8.ofNat (0x30 + d2))
+    uint8PadOnes (val % 10) (pos + 1) o
+
+/-- `MHD_uint8_to_str_pad (val, min_digits, buf, buf_size)` (the straight-line code cut into
+    its three stages: hundreds, tens, ones) -/
+def uint8ToStrPad (val minDigits : Nat) (out : Bytes) : M (Nat × Bytes) := do
+  if out.length = 0 then return (0, out)
+  let d1 := val / 100
+  if d1 = 0 then
+    if 3 ≤ minDigits then
+      let o ← wr out 0 0x30
+      uint8PadTens val minDigits 1 o
+    else uint8PadTens val minDigits 0 out
+  else
+    let o ← wr out 0 (UInt8.ofNat (0x30 + d1))
+    uint8PadTens (val % 100) 2 1 o
 
 /-! ### hex -/
 
